@@ -36,6 +36,7 @@ TSent == /\ IsEvent("sent") /\ phase = "invoked" /\ form # "both"
          /\ Len(Ev[l].msgs) = Len(Outgoing)
          /\ \A j \in 1..Len(Outgoing) : Wire(Outgoing[j]) = Observed(l)[j]       \* logged payload = what the spec sends
          /\ (transport # "rest" => Ev[l].path = Path(m) /\ Ev[l].kind = Kind(m))
+         /\ Ev[l].own                          \* the call went out on the channel of the client it was made on
          /\ req' = Outgoing
          /\ sent' = Append(sent, [path |-> Path(m), kind |-> Kind(m), msgs |-> Outgoing])
          /\ phase' = "sent"
